@@ -1194,9 +1194,47 @@ def gen_cases(ctx):
 
 # ------------------------------------------------------------------ run
 
+def value_item_family(ctx):
+    """the items of a property value (DimensionValue, ColorValue, URIValue, CSSFunction ...) reached through
+    prop.propertyValue[i]: a rejected cssText leaves the item, the value, the property and the rule as they were.
+    Search only."""
+    import cssutils
+    import xml.dom
+    from harness import impl
+    BAD = ['', ' ', '}', '1px 2px', 'red;', '"x', '+' + '9' * 400 + '.0em', '-' + '9' * 5000 + '%', '9' * 400 + 'pt', 'url(', 'f(', '#', '1px}',
+           '/*c*/', '1e', '@x', 'rgb(1,2', ')', '1px !important']
+    values = ['5px', '-2.5em', '50%', '7', 'red', '#abc', 'rgb(1, 2, 3)', 'url(a.png)', '"s"', 'f(1px, 2px)', 'calc(1px + 2px)', 'U+0-7F']
+    for v0 in values:
+        for bad in BAD:
+            impl.reset()
+            sheet = cssutils.parseString('a { x-w: %s 1px; top: 0 }' % v0)
+            rule = sheet.cssRules[0]
+            prop = rule.style.getProperties()[0]
+            item = prop.propertyValue[0]
+            case = {'family': 'value-item', 'kind': 'value-item', 'mut': 'cssText', 'value': v0, 'args': [bad[:60]], 'item_type': type(item).__name__}
+            ctx.case(('value-item', v0, bad[:60]))
+            before = (item.cssText, getattr(item, 'value', None), getattr(item, 'dimension', None), item.type, prop.cssText, rule.cssText, sheet.cssText)
+            try:
+                item.cssText = bad
+                continue          # accepted: not the subject here
+            except xml.dom.DOMException as e:
+                exc = '%s (%s)' % (type(e).__name__, str(e)[:80])
+            except Exception as e:  # noqa
+                ctx.violation('value-item.cssText-raises', case, '%s: %s' % (type(e).__name__, str(e)[:200]), KNOWN_PRED)
+                continue
+            try:
+                after = (item.cssText, getattr(item, 'value', None), getattr(item, 'dimension', None), item.type, prop.cssText, rule.cssText, sheet.cssText)
+            except Exception as e:  # noqa
+                after = ('observation raised %s: %s' % (type(e).__name__, str(e)[:100]),)
+            if after != before:
+                ctx.violation('value-item.cssText-not-atomic', case, '%s.cssText(%r) raised %s but the state changed: %r -> %r' % (
+                    type(item).__name__, bad[:60], exc, before[:5], after[:5]), KNOWN_PRED)
+
+
 def run(ctx):
     from harness import impl
     quick = ctx.tier == 'quick'
+    value_item_family(ctx)
     cases = gen_cases(ctx)
     ctx.cov['rule'] = ('case = (prior state: random world sheet holding every rule kind, or a detached object) x (target object) x '
                        '(mutator) x (argument: valid new content with one of %d garbage strings injected at a token boundary, a '
